@@ -241,17 +241,13 @@ impl LazyRaw {
         }
     }
 
-    fn clone_lazyraw(&self) -> std::result::Result<LazyRaw, Parsed> {
-        let parsed = self.parsed.load(Ordering::Acquire);
-        if parsed.is_null() {
-            Ok(LazyRaw {
-                raw: self.raw.clone(),
-                parsed: AtomicPtr::new(std::ptr::null_mut()),
-            })
-        } else {
-            // # Safety
-            // the pointer is immutable here, and we can clone it
-            Err(unsafe { (*parsed).clone() })
+    fn clone_lazyraw(&self) -> LazyRaw {
+        // The clone starts without the parse cache. Handing out a copy of the cached parse instead
+        // would drop the raw text: the clone of a value that was only read from would no longer
+        // serialize verbatim.
+        LazyRaw {
+            raw: self.raw.clone(),
+            parsed: AtomicPtr::new(std::ptr::null_mut()),
         }
     }
 }
@@ -270,10 +266,7 @@ impl LazyPacked {}
 impl Clone for LazyPacked {
     fn clone(&self) -> Self {
         match self {
-            Self::Raw(raw) => match raw.clone_lazyraw() {
-                Ok(raw) => Self::Raw(raw),
-                Err(v) => Self::Parsed(v),
-            },
+            Self::Raw(raw) => Self::Raw(raw.clone_lazyraw()),
             Self::NonEscStrRaw(s) => Self::NonEscStrRaw(s.clone()),
             Self::Parsed(v) => Self::Parsed(v.clone()),
         }
